@@ -718,6 +718,7 @@ def run(ctx):
             from .. import extra_oracles3
             extra_oracles3.kde_late_binding(ctx)
             extra_oracles3.truncated_bound_kinds(ctx)
+            extra_oracles.univariate_constant_history(ctx)
             extra_oracles2.retention(ctx, ['GaussianKDE', "GaussianKDE(bw_method='silverman')", 'TruncatedGaussian', 'GaussianUnivariate', 'UniformUnivariate'])
         except Exception as ex:
             ctx.obligation('oracle:extra:raised', False, 'correspondence', repr(ex))
